@@ -125,7 +125,9 @@ fn judge_c14(c: &Case, rec: &RunRecord) -> Vec<(String, Value)> {
             // out-of-range party index
             true
         } else if inj.what == "run" || inj.what == "consts" {
-            if p == leader { !scheduled_before } else { !validate_released_before }
+            // certainly too late: the party has already sent MPC messages (state Executing or later)
+            let executing = rec.rpcs.iter().any(|r| r.kind == RpcKind::Msg && r.from == p && r.fate != "unused" && r.t_issue < inj.t_call);
+            if executing { true } else if p == leader { !scheduled_before } else { !validate_released_before }
         } else if inj.what == "validate" {
             if p == leader { scheduled_before } else { validate_done_before }
         } else {
@@ -175,6 +177,30 @@ pub fn cases_c15(tier: &str, seed: u64) -> Vec<Case> {
                         let mut sc = base.clone();
                         sc.injections = vec![(When::Step(k), Inject::Cancel { comp: 0, party })];
                         v.push(Case { prop: "C15", key: format!("{} L{} gated={} step{} cancel p{}", prog.name, leader, gate_msgs, k, party), sc, progs: vec![(*prog).clone()], inputs: vec![inputs.clone()], out_masks: vec![mask.clone()], leaders: vec![leader], mismatch: None });
+                    }
+                }
+            }
+        }
+    }
+    // a stray (rejected) command first, then the cancel: the cancel must still work
+    {
+        let prog = &progs[3];
+        for leader in 0..2 {
+            let mask = vec![true, true];
+            let inputs = vec![(seed % 100) + 3, 41];
+            let mut base = base_scenario(prog, leader, &mask, &inputs, Strategy::Script(vec![]), 0x15d00);
+            base.gate_msgs = true;
+            let steps = pilot_steps(&base);
+            let ks: Vec<usize> = (2..steps).step_by(if thorough { 2 } else { 5 }).collect();
+            for k in ks {
+                for party in 0..2 {
+                    for (si, stray) in [Inject::Run { comp: 0, party }, Inject::Consts { comp: 0, party, from: 1 - party }, Inject::DupSchedule { comp: 0, party }, Inject::Validate { comp: 0, party }].into_iter().enumerate() {
+                        if !thorough && (k + party + si) % 2 == 1 {
+                            continue;
+                        }
+                        let mut sc = base.clone();
+                        sc.injections = vec![(When::Step(k), stray.clone()), (When::Step(k + 2), Inject::Cancel { comp: 0, party })];
+                        v.push(Case { prop: "C15", key: format!("{} L{} step{} {} then cancel p{}", prog.name, leader, k, inj_name(&stray), party), sc, progs: vec![prog.clone()], inputs: vec![inputs.clone()], out_masks: vec![mask.clone()], leaders: vec![leader], mismatch: None });
                     }
                 }
             }
@@ -289,7 +315,7 @@ pub fn cases_c16(tier: &str, seed: u64) -> Vec<Case> {
         let n = prog.parties;
         for leader in 0..n {
             for f in (0..n).filter(|f| *f != leader) {
-                for kind in ["program", "leader"] {
+                for kind in ["program", "program-whitespace-only", "leader"] {
                     let inputs: Vec<u64> = (0..n as u64).map(|p| (seed + 5 * p) % 256).collect();
                     let mask = vec![true; n];
                     // both arrival orders and delivery orders: small DFS by scripts 0/1 prefixes + random
@@ -299,12 +325,27 @@ pub fn cases_c16(tier: &str, seed: u64) -> Vec<Case> {
                     }
                     for (si, st) in strategies.into_iter().enumerate() {
                         let mut sc = base_scenario(prog, leader, &mask, &inputs, st, 0x16000 + pi as u128);
+                        if kind == "program-whitespace-only" {
+                            // both sources consist of the same tokens; only a line break moves, which ends
+                            // a line comment at a different place: `a // c \n ^ b` computes a ^ b, `a // c ^ b \n` computes a
+                            let with_break = |p: &str| p.replace("{ a ^ b", "{ a // mask\n ^ b").replace("{ if a > b", "{ // pick\n if a > b");
+                            let without_break = |p: &str| p.replace("{ a ^ b", "{ a // mask ^ b\n").replace("{ if a > b { c } else { a ^ b } }", "{ // pick if a > b { c } else\n { a ^ b } }");
+                            for q in 0..n {
+                                let src = sc.policies[0][q].program.clone();
+                                sc.policies[0][q].program = if q == f { without_break(&src) } else { with_break(&src) };
+                            }
+                        }
                         let pol = &mut sc.policies[0][f];
-                        if kind == "program" {
+                        if kind == "program-whitespace-only" {
+                        } else if kind == "program" {
                             pol.program = pol.program.replace('^', "&").replace("a > b", "b > a");
                         } else {
                             // a different leader, while f still regards itself as a follower
                             pol.leader = (0..n + 3).find(|l| *l != leader && *l != f).unwrap_or(n + 1);
+                        }
+                        if sc.policies[0].iter().any(|p| polytune::garble_lang::check(&p.program).is_err()) {
+                            eprintln!("C16 generator: a mismatch program does not type-check ({} {kind})", prog.name);
+                            continue;
                         }
                         v.push(Case { prop: "C16", key: format!("{} L{} mismatch-{} at p{} order{}", prog.name, leader, kind, f, si), sc, progs: vec![(*prog).clone()], inputs: vec![inputs.clone()], out_masks: vec![mask.clone()], leaders: vec![leader], mismatch: Some((f, kind)) });
                     }
@@ -487,7 +528,7 @@ fn judge_c17(c: &Case, rec: &RunRecord) -> Vec<(String, Value)> {
     // that party has stopped (a peer that waits for a cancelled / failed party has not ended)
     if rec.quiescent {
         for (p, avail) in rec.permits.iter().enumerate() {
-            let all_ended = rec.actors.iter().filter(|(_, pp, _, _)| *pp == p).all(|(_, _, finished, _)| *finished);
+            let all_ended = rec.actors.iter().filter(|(_, pp, _, _)| *pp == p).all(|(cc, _, finished, _)| *finished || rec.outputs.iter().any(|o| o.comp == *cc && o.party == p));
             if all_ended && *avail != c.sc.concurrency {
                 let why = if failed.is_empty() { "after all its policies ended".to_string() } else { format!("after a failed {:?} call and all its policies ended", failed[0].kind).to_lowercase() };
                 out.push((format!("the concurrency budget of a party is not fully available {why}"), json!({"party": p, "permits": rec.permits, "budget": c.sc.concurrency})));
